@@ -63,6 +63,23 @@ CLAIMED = {
             "on observed results.",
             "Trusted: TLC, TdmsLayout byte arithmetic (cross-checked against the encoder on every position), encoder.",
             "DESIGN.md 3.5, 5/C06"),
+    "C07": ("TLA+ TdmsWriter composed with TdmsSegments (INSTANCE): TLC checks RoundTrip (reader model over emitted "
+            "segments = what the caller asked to store) over all programs; every program executed with the real "
+            "TdmsWriter and read back",
+            "Model checking of the writer state machine (sessions, automatic root/group objects, ordering) and of the "
+            "value-class -> TDMS-type case analysis, plus spec->code conformance for every enumerated program: "
+            "channel data/dtype/length, property values and TDMS types (via independent parser), names, versions, "
+            "append sessions, path and stream targets.",
+            "Trusted: TLC, the spec's transcription of the documented type mapping, concrete value generators per "
+            "class, parser, projection.",
+            "DESIGN.md 3.7, 5/C07"),
+    "C08": ("TLA+ TdmsWriter.ParentsFirst by TLC; parse events of the bytes TdmsWriter produced validated by TLC against "
+            "Trace_Writer.tla (TDMS layout as recogniser; code->spec trace validation), incl. the index twin",
+            "Trace validation of every program's output: lead-in offsets = bytes written, every length field = bytes "
+            "that follow (raw index 20 / 28 for strings), raw data length = declared types x counts, root first, "
+            "parents declared first, index file = data file without raw data and with TDSh (CRC per segment).",
+            "Trusted: TLC, independent structural parser (harness/parser.py).",
+            "DESIGN.md 3.2, 5/C08"),
     "C15": ("TLA+ TdmsSegments: byte order is an attribute of the encoding only; TLC enumerates per-segment byte-order "
             "assignments, each file replayed in 4 byte-order variants against the one specification view",
             "Model checking + spec->code conformance: all 2^k per-segment byte-order assignments (k<=2) over "
